@@ -759,7 +759,14 @@ func (env *Env) binary(x *ast.BinaryExpr) Val {
 		}
 		n := len(env.st.hyps)
 		env.st.hyps = append(env.st.hyps, g)
+		restored := false
+		defer func() {
+			if !restored { // evaluation of the right operand failed: drop the temporary guard
+				env.st.hyps = env.st.hyps[:n]
+			}
+		}()
 		b := env.eval(x.Y)
+		restored = true
 		// facts learnt while evaluating b are kept, guarded
 		extra := append([]string(nil), env.st.hyps[n+1:]...)
 		env.st.hyps = env.st.hyps[:n]
